@@ -12,6 +12,8 @@ let dispatch fnum z nat entry (is : int list) (xs : Obj.t list) : Obj.t list res
   | "fse_angle", [] -> run_fse_angle fnum xs
   | "session", memo :: n :: nb :: codes ->
       run_session fnum (memo <> 0) (nat n) (nat nb) (List.map nat codes) xs
+  | "fse_session", memo :: nb :: codes ->
+      run_fse_session fnum (memo <> 0) (nat nb) (List.map nat codes) xs
   | "smallest_angle", [] -> run_smallest_angle fnum xs
   | "gen_scatter", [axis; n] -> run_gen_scatter fnum (z axis) (nat n) xs
   | "gen_pgr", [axis; n] -> run_gen_pgr fnum (z axis) (nat n) xs
